@@ -315,6 +315,21 @@ def check(desc):
                     if v2 == 'refuse':
                         tags.add('edited_after_check')
                         ev += 1
+                        for target2 in ('CeiloChunk', 'run'):
+                            try:
+                                with warnings.catch_warnings():
+                                    warnings.simplefilter('ignore')
+                                    if target2 == 'CeiloChunk':
+                                        CeiloChunk(ed)
+                                    else:
+                                        import ampycloud
+                                        ampycloud.run(ed)
+                                oracles.V(viol, 'C15', 'a checked frame edited into an illegal one is accepted by chunk construction',
+                                          target=target2, edit=['duplicate row', 'type 0 next to a hit', 'VV next to a hit'][which_edit], reason=i2, **wit)
+                            except AmpycloudError:
+                                pass
+                            except Exception as e:      # noqa
+                                oracles.V(viol, 'C15', 'refusal signalled by another exception type', target=target2, exc=type(e).__name__, **wit)
                         try:
                             with warnings.catch_warnings():
                                 warnings.simplefilter('ignore')
